@@ -3,12 +3,11 @@ CONSTANTS
   AllSchedules = TRUE
   PermuteModules = FALSE
   N = 3
-  Kinds = {"val", "ptr", "vptr"}
-  VftTypes = {1}
+  Kinds = {"base0", "val"}
+  VftTypes = {1, 2}
   FnKinds = {}
   FnOwners = {}
   TwoModules = FALSE
-  Ptrs = {8}
-INVARIANTS Inv_Passes
-PROPERTIES Termination
-CHECK_DEADLOCK TRUE
+  Ptrs = {4}
+INVARIANTS Inv_Passes Replay
+CHECK_DEADLOCK FALSE
